@@ -2,7 +2,7 @@ D = "internal/dnsserver/"
 
 CHECK = dict(
     level="fault_enumeration",
-    level_text="Generated fault sequences: rapid-drawn histories of queries, health-check rounds, per-upstream behaviour switches (reply / non-NOERROR reply / four kinds of network error / three kinds of non-network error / no reply) and clock steps biased to the backoff boundary, for 1-3 main and 0-2 fallback upstreams, compared step by step with a reference fail-over state machine; the same reference is run against real UpstreamPlain clients and loopback UDP/TCP servers that are closed, reopened and made to answer wrongly; reply acceptance is checked on generated wrong-ID / wrong-name / case-only / wrong-type / question-count / TC / garbage replies, on replies of minimal size and at the UDP (4096) and TCP (65535) limits, on stale replies to a near-miss previous query over reused pooled connections, TCP replies in two pieces and extra datagrams. Handler construction with the initial health check, bursts of simultaneous queries, health checks with queries in flight (also under -race), servers that drop established connections, stall until the deadline, or truncate with the TCP port closed, and dead caller contexts are part of the socket-level histories. Held on N histories is evidence, not proof; the space of fault sequences is sampled, not enumerated completely.",
+    level_text="Generated fault sequences: rapid-drawn histories of queries, health-check rounds, per-upstream behaviour switches (reply / non-NOERROR reply / four kinds of network error / three kinds of non-network error / no reply) and clock steps biased to the backoff boundary, for 1-3 main and 0-2 fallback upstreams, compared step by step with a reference fail-over state machine; the same reference is run against real UpstreamPlain clients and loopback UDP/TCP servers that are closed, reopened and made to answer wrongly; reply acceptance is checked on generated wrong-ID / wrong-name / case-only / wrong-type / question-count / TC / garbage replies, on replies of minimal size and at the UDP (4096) and TCP (65535) limits, on stale replies to a near-miss previous query over reused pooled connections, TCP replies in two pieces and extra datagrams. Handler construction with the initial health check, bursts of simultaneous queries, health checks with queries in flight (also under -race), servers that drop established connections, stall until the deadline, or truncate with the TCP port closed, and dead caller contexts are part of the socket-level histories. A last part builds the handler the way the service does, from a generated `upstream:` configuration section through parseConfig / validate / toInternal / forward.NewHandler, and checks conversion fidelity and fail-over by the identity of the configured loopback server that answered. Held on N histories is evidence, not proof; the space of fault sequences is sampled, not enumerated completely.",
     level_note="Time is owned by rewinding upstreamStatus.lastFailedHealthcheck (and the wall clock in between is bounded from both sides; a history in which it could have crossed a backoff boundary is discarded). Concurrent Refresh/ServeDNS schedules are sampled (queries in flight during a round, judged against the eligible set before or after it), not enumerated. Handler.rand is replaced by a generator seeded from a rapid draw.",
     technique="property-based testing (rapid): stateful fault-sequence histories vs a reference state machine; scripted upstream fakes and real loopback UDP/TCP servers",
     assumptions=[
@@ -21,6 +21,9 @@ CHECK = dict(
             dict(name="sockets", run="^TestVerifC17Sockets$", quick=2000, thorough=80000, shards_quick=3, shards_thorough=6),
             dict(name="history-race", run="^TestVerifC17History$", quick=2000, thorough=40000, shards_quick=1, shards_thorough=1, race=True),
             dict(name="sockets-race", run="^TestVerifC17Sockets$", quick=200, thorough=4000, shards_quick=1, shards_thorough=1, race=True),
+        ]),
+        dict(name="cmd", dir="internal/cmd", src="C17/cmd", runs=[
+            dict(name="config", run="^TestVerifC17Config$", quick=1500, thorough=60000, shards_quick=1, shards_thorough=4),
         ]),
     ],
 )
